@@ -631,3 +631,140 @@ MONITORS: dict[str, Callable[[Trace], list[Violation]]] = {
     "C11": mon_c11,
     "C35": mon_c35,
 }
+
+
+# ------------------------------------------------------------------ C09
+
+
+def _cnt(xs: list) -> dict:
+    d: dict = {}
+    for x in xs:
+        d[x] = d.get(x, 0) + 1
+    return d
+
+
+def flagged_known(vs: list) -> bool:
+    """stale-snapshot effects (the known finding) make the whole-run accounting meaningless"""
+    return any(v.signature in ("C09/two_completions_same_snapshot", "C09/dropped_against_stale_snapshot", "C09/event_lost_after_stale_snapshot") for v in vs)
+
+
+def mon_c09(tr: Trace) -> list[Violation]:
+    """collect_events on real runs, stated on what the step body and the live buffers saw.
+
+    Per call (snapshot, event, expected -> returned list or None); per result tick
+    (live buffer before/after); across the run (each event in at most one list, no event
+    that was needed is dropped).  Calls whose snapshot differs from the live buffer when
+    their result is processed are *stale*: the known finding is confined to them.
+    """
+    out: list[Violation] = []
+    calls = [r for r in tr.steps if r[0] == "collect_call"]
+    if not calls:
+        return out
+    # result ticks of each (step, uid), in processing order
+    ticks: dict[tuple, list] = {}
+    for c in _runner_calls(tr):
+        if c.kind == "reduce" and isinstance(c.tick, T.TickStepResult) and c.after is not None:
+            ticks.setdefault((c.tick.step_name, getattr(c.tick.event, "uid", None)), []).append(c)
+    seen_idx: dict[tuple, int] = {}
+    any_stale: set = set()
+    returned: dict[tuple, list] = {}  # (step, buf) -> [(uid list, stale?)]
+    for rec in calls:
+        _k, step, uid, rn, _vt, info = rec
+        if info["snapshot"] is None:
+            continue
+        key = (step, uid)
+        i = seen_idx.get(key, 0)
+        seen_idx[key] = i + 1
+        exp, buf, snap, snap_tys, ty, got = info["expected"], info["buf"], info["snapshot"], info["snapshot_tys"], info["ty"], info["got"]
+        expc = _cnt(exp)
+        snapc = _cnt(snap_tys)
+        buf_ok = all(snapc.get(t, 0) <= expc.get(t, 0) for t in snapc)
+        full = _cnt(snap_tys + [ty]) == expc
+        case = _replay(tr)
+        # R1: the call itself
+        if not exp:
+            if got != []:
+                out.append(Violation("C09/empty_expected_not_empty_list", f"collect_events(expected=[]) returned {got!r}", case))
+            continue
+        if buf_ok:
+            if (got is not None) != full:
+                out.append(Violation("C09/returned_iff_full_set",
+                                     f"step {step}: expected types {exp}, snapshot types {snap_tys} + event type {ty}: returned {got!r}", case))
+        if got is not None:
+            if info["got_tys"] != exp:
+                out.append(Violation("C09/not_ordered_as_expected", f"step {step}: returned types {info['got_tys']} for expected {exp}", case))
+            if buf_ok and sorted(got) != sorted(snap + [uid]):
+                out.append(Violation("C09/list_is_not_buffer_plus_event", f"step {step}: returned uids {got}, snapshot {snap} + event {uid}", case))
+        # the result tick of this call
+        tl = ticks.get(key, [])
+        if i >= len(tl):
+            continue  # run ended before the result was processed
+        c = tl[i]
+        live_before = [getattr(e, "uid", None) for e in c.before.workers[step].collected_events.get(buf, [])]
+        live_before_tys = [ET.TY_ID.get(type(e), -1) for e in c.before.workers[step].collected_events.get(buf, [])]
+        live_after = [getattr(e, "uid", None) for e in c.after.workers[step].collected_events.get(buf, [])]
+        stale = live_before != snap
+        if stale:
+            any_stale.add(step)
+        completed = any(isinstance(r, R.StepWorkerResult) for r in c.tick.result)
+        adds = [r for r in c.tick.result if isinstance(r, R.AddCollectedEvent) and r.event_id == buf]
+        rerun = any(isinstance(k, C.CommandRunWorker) and k.step_name == step and k.id == c.tick.worker_id for k in c.cmds)
+        stopped = any(isinstance(k, C.CommandCompleteRun) for k in c.cmds)
+        if got is not None:
+            if completed:
+                # an attempt that then failed or suspended in wait_for_event is re-executed with the same
+                # event and does not apply its DeleteCollectedEvent: only the completing attempt counts
+                returned.setdefault((step, buf), []).append((got, stale, uid))
+            unseen = [u for u in live_before if u not in snap]
+            if completed and stale and unseen and not any(u in live_after for u in unseen):
+                out.append(Violation("C09/event_lost_after_stale_snapshot",
+                                     f"step {step}: invocation completed against snapshot {snap} while the live buffer was {live_before}: {unseen} deleted unseen", case))
+            if completed and not stopped and live_after != []:
+                out.append(Violation("C09/buffer_not_cleared_after_full_set" if not stale else "C09/two_completions_same_snapshot",
+                                     f"step {step}: after returning {got} the live buffer is {live_after}", case))
+        elif adds:
+            if not stale:
+                if live_after != live_before + [uid]:
+                    out.append(Violation("C09/needed_event_not_buffered",
+                                         f"step {step}: event {uid} needed (snapshot {snap}) but live buffer went {live_before} -> {live_after}", case))
+            elif len(live_before) > len(snap):
+                if live_after != live_before or not rerun:
+                    out.append(Violation("C09/stale_call_not_rerun",
+                                         f"step {step}: stale snapshot {snap} vs live {live_before}: buffer -> {live_after}, rerun={rerun}", case))
+        else:
+            # nothing recorded for this event: it must be surplus w.r.t. the live buffer
+            livec = _cnt(live_before_tys)
+            if ty in expc and livec.get(ty, 0) < expc[ty]:
+                sig = "C09/dropped_against_stale_snapshot" if stale else "C09/needed_event_dropped"
+                out.append(Violation(sig, f"step {step}: event {uid} (type {ty}) dropped: snapshot {snap_tys}, live buffer {live_before_tys}, expected {exp}", case))
+    # R5: no event that entered a buffer vanishes (unless the run's end cleared the buffers)
+    rc = _runner_calls(tr)
+    exit_idx = next((i for i, c in enumerate(rc) if c.kind == "reduce" and _is_exit(c.cmds)), None)
+    last = (rc[exit_idx].before if exit_idx is not None else (rc[-1].after if rc and rc[-1].after is not None else None))
+    if last is not None:
+        in_lists = {u for lists in returned.values() for (got, _s, _u) in lists for u in got}
+        for step_name, ws in last.workers.items():
+            final = {getattr(e, "uid", None) for evs in ws.collected_events.values() for e in evs}
+            ever: dict = {}
+            for i, c in enumerate(rc):
+                if exit_idx is not None and i >= exit_idx:
+                    break
+                if c.after is None or step_name not in c.after.workers:
+                    continue
+                for b, evs in c.after.workers[step_name].collected_events.items():
+                    for e in evs:
+                        ever.setdefault(getattr(e, "uid", None), (b, i))
+            for u, (b, i) in ever.items():
+                if u not in final and u not in in_lists:
+                    out.append(Violation("C09/event_lost_after_stale_snapshot" if step_name in any_stale else "C09/event_lost", f"step {step_name}: event {u} was in buffer {b!r} (tick {i}) and is neither in a returned list of a completed invocation nor in the buffer any more", _replay(tr)))
+    # R2: each event in at most one returned list
+    for (step, buf), lists in returned.items():
+        seen: dict = {}
+        for got, stale, uid in lists:
+            for u in got:
+                if u in seen:
+                    sig = "C09/two_completions_same_snapshot" if (stale or seen[u][1]) else "C09/event_in_two_lists"
+                    out.append(Violation(sig, f"step {step}: event {u} returned in {seen[u][0]} and again in {got}", _replay(tr)))
+                else:
+                    seen[u] = (got, stale)
+    return out
